@@ -164,6 +164,26 @@ func MapLit(keys []string, vals ...Ty) *Rule {
 	return r
 }
 
+// MapComputed is a map literal whose keys are given by pattern: an identifier is a fixed key (one
+// value operand), "*" is a parenthesised computed string key (a key operand, then a value operand).
+func MapComputed(pattern []string, vals ...Ty) *Rule {
+	r := &Rule{Op: "mapc", Arg: strings.Join(pattern, ","), Out: TAnyMap, Atom: true}
+	var f []string
+	k := 0
+	for _, p := range pattern {
+		if p == "*" {
+			r.In = append(r.In, arg(TStr), arg(vals[k]))
+			f = append(f, "(%s): %s")
+		} else {
+			r.In = append(r.In, arg(vals[k]))
+			f = append(f, p+": %s")
+		}
+		k++
+	}
+	r.Fmt = "{" + strings.Join(f, ", ") + "}"
+	return r
+}
+
 func (r *Rule) String() string { return fmt.Sprintf("%s:%s", r.Op, r.Arg) }
 
 // implicit dependencies of harness functions on members
